@@ -90,6 +90,35 @@ func init() {
 			m.assume(args[0])
 			return nil
 		},
+		// vOrdered(keys): assume keys[0] < keys[1] < ... (strict, lexicographic). Only the adjacent
+		// facts are asserted to the solver; every pairwise consequence (transitivity) is recorded as
+		// known for this path so that comparisons between pool keys never reach the solver.
+		"vOrdered": func(m *Machine, fr *frame, args []value) value {
+			ks, _ := args[0].([]value)
+			keys := make([][]value, len(ks))
+			for i, k := range ks {
+				keys[i], _ = k.([]value)
+			}
+			for i := 0; i+1 < len(keys); i++ {
+				lt, _ := m.bytesLex(keys[i], keys[i+1])
+				m.assume(wrap(lt, types.Bool))
+			}
+			for i := 0; i < len(keys); i++ {
+				for j := i + 1; j < len(keys); j++ {
+					lt, eq := m.bytesLex(keys[i], keys[j])
+					gt, _ := m.bytesLex(keys[j], keys[i])
+					for _, fact := range []struct {
+						t *Term
+						v bool
+					}{{lt, true}, {eq, false}, {gt, false}, {m.bytesEqTerm(keys[i], keys[j]), false}} {
+						if fact.t.Op != OpConst {
+							m.learn(fact.t, fact.v)
+						}
+					}
+				}
+			}
+			return nil
+		},
 		"vAssert": func(m *Machine, fr *frame, args []value) value {
 			m.assertV(args[0], strArg(args[1]))
 			return nil
